@@ -4,9 +4,10 @@ import Verif.Driver.Cluster
 import Verif.Driver.TreeDist
 import Verif.Driver.Heap
 import Verif.Driver.Cache
+import Verif.Driver.Wordlist
 open Verif.Driver
 
-def handlers : List (List (List String) → Option String) := [handleAlign, handleSC, handleCluster, handleTree, handleHeap, handleCache]
+def handlers : List (List (List String) → Option String) := [handleAlign, handleSC, handleCluster, handleTree, handleHeap, handleCache, handleWL]
 
 def dispatch (line : String) : String :=
   let fs := fields line
